@@ -70,6 +70,9 @@ def main():
         caught = {}
         if applied:
             props = ['C%02d' % i for i in range(1, 18)]
+            if opts.get('--checks'):
+                props = [c for c in opts['--checks'].split(',') if c]      # a re-evaluation restricted to some checks (recorded in meta)
+                meta['checks_run'] = props
             for p in props:
                 rc_, o = sh('./check %s --no-write --repo %s' % (p, wt), cwd=VERIF)
                 lines = [l for l in o.splitlines() if l.startswith('VIOLATION') or l.startswith('ANALYSIS-ERROR')]
